@@ -122,6 +122,13 @@ TABLE = [
     (("C09",), "fmt::temporal::printer::DateTimePrinter::print_offset_rounded", "any", "out:wtr", ["offset.span"], "the offset is printed"),
     (("C09",), "fmt::temporal::printer::DateTimePrinter::print_time_zone_annotation", "any", "out:wtr", ["time_zone.repr", "offset.span"],
      "IANA name, or the fixed offset itself, is printed"),
+    # ---- C16: the hour of a broken-down time is `hour` combined with `meridiem` (BrokenDownTime::hour() does so); every
+    # hour / AM-PM directive must print that combination, or text parsed with %I %p re-formats with AM and PM flipped
+] + [
+    (("C16",), "fmt::strtime::format::Formatter::<'f, 't, 'w, W>::" + fn_, "any", "out:self.wtr", ["self.tm.hour", "self.tm.meridiem"],
+     "the printed hour / AM-PM marker is the 24-hour value that hour() reports") for fn_ in
+    ("fmt_hour24_zero", "fmt_hour24_space", "fmt_hour12_zero", "fmt_hour12_space", "fmt_ampm_lower", "fmt_ampm_upper")
+] + [
     # ---- C02 / C03 / C04 / C14: instant <-> civil and zone lookups read the whole instant / datetime
     (("C02",), "tz::offset::Offset::to_datetime", "each", "ret", TS("timestamp") + ["self.span"], "civil = decomposition of t + o"),
     (("C02",), "tz::offset::Offset::to_timestamp", "each", "ret", DT("dt") + ["self.span"], "instant = civil - o"),
@@ -198,12 +205,13 @@ def run_dep(ctx, rep, prop, cfg="Q", rule="DEP"):
         loc = fd.fn.loc() if hasattr(fd.fn, "loc") else fd.fn.file
         # output selector
         if out.startswith("out:"):
-            pl, _ = _needs(fd, out[4:])
+            pl, ppath_ = _needs(fd, out[4:])
             ops = fd.out_params()
             if pl is None or pl not in ops:
                 rep.violation(rule, label, "anchor missing: writer parameter %s of %s not found" % (out[4:], key), loc)
                 continue
-            alts = [(-1, "writes", {(): ops[pl]}, None, frozenset())]
+            written = fd.out_param_path(pl, ppath_) if ppath_ else ops[pl]
+            alts = [(-1, "writes", {(): written}, None, frozenset())]
             opath = ()
         else:
             opath = tuple(x for x in out.split(".")[1:] if x)
